@@ -52,6 +52,10 @@ class Scen(CompScenario):
         if used and rng.random() < pi:
             stim["free_idx.en"] = 1
             stim["free_idx.i.idx"] = self._pick_pos(rng, used)
+            if stim.get("free.en"):
+                # free and free_idx of one cycle: the statement does not say what two different designations do
+                # together -- both name the same identifier (they still contend for the one removal)
+                stim["free_idx.i.idx"] = self.lst.index(stim["free.i.ident"])
         stim["order.en"] = int(cyc == 0 or self.just_cleared or rng.random() < po)
         stim["clear.en"] = int(rng.random() < pc)
         return stim
@@ -68,17 +72,20 @@ class Scen(CompScenario):
             self.premise(f_ident in lst, f"free of identifier {f_ident} which is not allocated")
         if en["free_idx"]:
             self.premise(f_idx < used, f"free_idx of index {f_idx} with only {used} allocated")
+        if en["free"] and en["free_idx"]:
+            self.premise(lst.index(f_ident) == f_idx, "free and free_idx of one cycle designate the same identifier")
 
         ready = {"alloc": used < n, "free": True, "free_idx": True, "order": True, "clear": True}
         for p in self.ports:
-            if en[p]:
+            if en[p] and p == "alloc":  # the statement gives the readiness of alloc only
                 self.expect(obs[f"{p}.runnable"] == int(ready[p]), "ready-mismatch",
                             f"{p} callable={obs[f'{p}.runnable']} with {used}/{n} allocated", port=p)
+            elif en[p] and not obs[f"{p}.runnable"]:
+                self.hit(f"{p}_not_callable")
             self.expect(not done[p] or (en[p] and ready[p]), "ran-when-not-callable",
                         f"{p}: en={en[p]} done={done[p]} with {used}/{n} allocated", port=p)
-        # free is implemented by calling free_idx: the two callers exclude each other
-        self.expect(not (done["free"] and done["free_idx"]), "conflicting-both-ran",
-                    "free and free_idx both executed in one cycle", port="free")
+        if done["free"] and done["free_idx"]:
+            self.hit("free_and_free_idx_both_ran")  # same identifier (premise): one removal either way
         for p in ("alloc", "order", "clear"):
             if en[p] and ready[p] and not done[p]:
                 self.hit("blocked_though_ready")
@@ -181,7 +188,7 @@ class Prop(PropBase):
         "thorough": {"runs": 22000, "selftest_runs": 32},
     }
     rule = ("one run = one entry count driven for 80-240 cycles by a seeded phase plan (random / fill / drain / "
-            "ping-pong / contend (free and free_idx together) / flush / idle) with `order` observed in most cycles; "
+            "ping-pong / contend (free and free_idx together, naming the same identifier) / flush / idle) with `order` observed in most cycles; "
             "distinct = distinct (entries, allocated list oldest->newest, freed position, executed call set); "
             "non-trivial = a state-changing call executed with 0, 1, entries-1 or entries identifiers allocated, or "
             "alloc together with a free, or clear ran")
@@ -192,6 +199,11 @@ class Prop(PropBase):
     real = ["transactron.lib.allocators.PreservedOrderAllocator", "transactron.lib.adapters.AdapterTrans",
             "TransactionManager + scheduler", "amaranth pysim"]
     stubs = ["cycle driver (stimulus)", "list reference model (oldest -> newest)"]
+    assumptions = ["'a free identifier exists' (alloc readiness) and the returned identifier are judged on the allocated set at the "
+                   "beginning of the cycle: an identifier freed in a cycle is not available to the alloc of the same cycle; "
+                   "order shows the state at the beginning of the cycle; of the calls executed in one cycle clear is applied last",
+                   "free and free_idx requested in the same cycle designate the same identifier (the statement does not say "
+                   "what two different designations of one cycle do together)"]
     search_space = ("PreservedOrderAllocator entry counts and alloc/free/free_idx/order/clear call histories that free "
                     "only allocated identifiers and indices below the used count")
 
